@@ -18,6 +18,21 @@ Structure (see notes/HOWTO.md):
      read-only use must leave the vector as it was.
   4. search on the transform classes: read-only calls interleaved with
      assignments must leave params / constants (values and bounds) unchanged.
+  5. a bounded vector reached THROUGH ITS OWNER (every class of transform.__all__,
+     also built with constructor keywords, and the base class Transform holding
+     generated vectors of every flag combination): every assignment route
+     (attribute / item on the transform, attribute / item on trans.params and
+     trans.constants, .values = list / tuple / array / strided view, reset of the
+     transform and of the vector, unknown names, wrong lengths, constructor and
+     get_transform keywords) x values inside, on, just outside (1e-6), far
+     outside (1e6, 1e300) the bounds, NaN, +-inf, +-0, handed over as float /
+     int / numpy scalars, on a fresh owner and inside long histories (owner_sweep,
+     exhaustive for one assignment; transform_search, random interleavings).
+     Judged on both vectors read back with the clauses of 3 (values within
+     bounds, NaN only when allowed, frame, a rejected assignment leaves all
+     untouched, stored value = plain clip, hit flag exact, the vector not
+     addressed and another owner of the same class untouched, the caller's
+     array not kept, reads through the owner give the stored values).
 """
 import itertools
 import math
@@ -662,7 +677,7 @@ def tsnap(t):
     return out
 
 
-def t_call(ctx, fail, t, cname, call, arg, log, seed):
+def t_call(ctx, fail, t, cname, call, arg, log, seed, spec=None):
     """one read-only call on transform t; params / constants must not move"""
     before = tsnap(t)
     log.append(["call", call, arg])
@@ -693,52 +708,457 @@ def t_call(ctx, fail, t, cname, call, arg, log, seed):
                           ("maxs", "bounds-changed")):
             if not same_list(before[role][fld], after[role][fld]):
                 fail(f"C12/{owner}.{meth}/{role}-{mode}",
-                     {"transform": cname, "log": [list(e) for e in log], "before": before, "after": after,
-                      "exception": exc},
+                     {"transform": cname, "spec": spec, "log": [list(e) for e in log], "before": before,
+                      "after": after, "exception": exc},
                      f"{cname}().{call}(...) changed {role}.{fld}: "
                      f"{before[role][fld]} -> {after[role][fld]}")
 
 
-def t_assign(ctx, fail, t, cname, role, how, name, val, log):
-    """one assignment to a parameter / constant of transform t; bounds must not move"""
-    before = tsnap(t)
+# ----------------------------------------------------------------------------
+# a bounded vector reached THROUGH ITS OWNER (a transform): every assignment route, judged by the
+# property's clauses on the vector read back
+#
+#   t-attr   trans.<name> = x            t-key    trans[<name>] = x
+#   v-attr   trans.<role>.<name> = x     v-key    trans.<role>[<name>] = x
+#   v-all    trans.<role>.values = [...] (list / tuple / array / strided view; also of a wrong length)
+#   t-reset  trans.reset()               v-reset  trans.<role>.reset()
+#   constructor keywords / get_transform keywords (owner_construct)
+#
+# Owners: the 13 classes of transform.__all__ (constructor keywords varied) and the base class
+# Transform(name, params, constants) holding generated vectors (all flag combinations, so that the
+# hit-flag clause is exact there as well).
+
+ROLES = ("params", "constants")
+OLD_HOW = {"attr": "t-attr", "key": "t-key", "vec-key": "v-key", "all": "v-all", "reset": "t-reset"}
+OWNER_FN = {"v-attr": "transform-vector.setattr", "v-key": "transform-vector.setitem",
+            "v-all": "transform-vector.values", "v-reset": "transform-vector.reset"}
+OWNER_METH = {"t-attr": "__setattr__", "t-key": "__setitem__", "t-reset": "reset"}
+SCALAR_ROUTES = ("t-attr", "t-key", "v-attr", "v-key")
+VEC_REPS = ("list", "tuple", "array", "view")
+
+
+def osnap(t):
+    return {role: snap(getattr(t, role)) for role in ROLES}
+
+
+def odiff(a, b):
+    return [f"{role}.{k}" for role in ROLES for k in diff_fields(a[role], b[role])]
+
+
+def make_owner(tr, spec):
+    """the owner described by a (JSON) spec"""
+    cname = spec["transform"]
+    if cname == "Transform":
+        from hydrodiy.data.containers import Vector
+        vs = [construct(Vector, spec["vectors"][role])[0] for role in ROLES]
+        return tr.Transform("generic", vs[0], vs[1])
+    kw = dict(spec.get("kwargs") or {})
+    if spec.get("via") != "get_transform" and not spec.get("values"):
+        return getattr(tr, cname)(**kw)
+    kw.update(spec.get("values") or {})
+    return tr.get_transform(cname, **kw)
+
+
+def generic_spec(rng, np_, nc, flags_p, an_p, flags_c, an_c, kinds_p=None, kinds_c=None):
+    """Transform(name, params, constants) with generated vectors of disjoint names"""
+    p = gen_ctor(rng, n=np_, kinds=kinds_p, flags=flags_p, an=an_p, clean=True)
+    c = gen_ctor(rng, n=nc, kinds=kinds_c, flags=flags_c, an=an_c, clean=True)
+    c["names"] = rng.sample([x for x in NAMEPOOL if x not in p["names"]], nc)
+    return {"transform": "Transform", "vectors": {"params": p, "constants": c}}
+
+
+def scalar_reps(val):
+    """the representations in which the number val can be handed over unchanged"""
+    reps = ["float", "f64"]
+    if math.isfinite(val) and val == int(val) and abs(val) < 2 ** 53 and (val != 0 or math.copysign(1, val) > 0):
+        reps.append("int")
+    with np.errstate(all="ignore"):
+        if math.isnan(val) or float(np.float32(val)) == val:
+            reps.append("f32")
+    return reps
+
+
+def conv_scalar(val, rep):
+    if rep == "int":
+        return int(val)
+    if rep == "f64":
+        return np.float64(val)
+    if rep == "f32":
+        return np.float32(val)
+    return float(val)
+
+
+def conv_vector(vals, rep):
+    """-> (object handed to the setter, array to scribble on afterwards or None)"""
+    if rep == "tuple":
+        return tuple(float(x) for x in vals), None
+    if rep == "array":
+        a = np.array(vals, dtype=np.float64)
+        return a, a
+    if rep == "view":
+        base = np.zeros(2 * len(vals), dtype=np.float64)
+        base[::2] = vals
+        return base[::2], base
+    return [float(x) for x in vals], None
+
+
+def owner_values(lo, hi):
+    """{class: value} for one component: inside, on, just outside, far outside, NaN, +-inf, +-0,
+    sign-flipped - all on a bound or at least 1e-6 away from it"""
+    out = dict(class_values(lo, hi))
+    cand = []
+    if math.isfinite(lo):
+        cand += [("just-below", lo - 1e-6), ("just-below", lo - 2e-6), ("far-below", lo - 1e6),
+                 ("below-unit", lo - 1.0)]
+    if math.isfinite(hi):
+        cand += [("just-above", hi + 1e-6), ("just-above", hi + 2e-6), ("far-above", hi + 1e6),
+                 ("above-unit", hi + 1.0)]
+    cand += [("huge-neg", -1e300), ("huge-pos", 1e300), ("neg-inf", -INF), ("pos-inf", INF),
+             ("zero", 0.0), ("neg-zero", -0.0), ("minus-two", -2.0), ("minus-three", -3.0), ("tiny", 5e-324)]
+    for c, x in cand:
+        if c not in out and in_quant(x, lo, hi):
+            out[c] = float(x)
+    return out
+
+
+def owner_defining(t, meth):
+    for klass in type(t).__mro__:
+        if meth in vars(klass):
+            return klass.__name__
+    return "Transform"
+
+
+def owner_judge_state(fail, fn, st, rp):
+    """the clauses on a freshly observed pair of vectors (no history needed)"""
+    for role in ROLES:
+        H = Hist(None, None, lambda key, r, what, role=role: fail(role_key(key, role), r, what))
+        H.invariants(fn, st[role], rp)
+        s = st[role]
+        n = len(s["names"])
+        if any(len(s[k]) != n for k in ("mins", "maxs", "defaults", "values")):
+            continue
+        for i in range(n):
+            lo, hi, d = s["mins"][i], s["maxs"][i], s["defaults"][i]
+            if math.isnan(lo) or math.isnan(hi) or not lo <= hi:
+                fail(f"C12/{fn}/{role}-bounds-inconsistent", rp, f"{fn}: bounds [{lo!r}, {hi!r}] of '{s['names'][i]}'")
+            elif (math.isnan(d) and not s["an"]) or (not math.isnan(d) and not lo <= d <= hi):
+                fail(f"C12/{fn}/{role}-default-outside-bounds", rp,
+                     f"{fn}: default {d!r} of '{s['names'][i]}' for bounds [{lo!r}, {hi!r}]")
+
+
+def state_valid(st):
+    """the values clause on one observed state"""
+    bad = []
+    Hist(None, None, lambda key, r, what: bad.append(key)).invariants("x", st, None)
+    return not bad
+
+
+def role_key(key, role):
+    head, mode = key.rsplit("/", 1)
+    return f"{head}/{role}-{mode}"
+
+
+def t_assign(ctx, fail, t, cname, role, how, name, val, log, rep=None, spec=None, bystander=None):
+    """one assignment to a parameter / constant of transform t by the route `how`, judged on both
+    vectors read back: values within bounds, NaN only when allowed, names / bounds / defaults / flags as
+    before, a rejected assignment leaves everything untouched, an accepted one stores the plain clip of
+    what was given (other components and the other vector untouched), the hit flag says whether that
+    was a clip (never raised without check_hitbounds), the caller's array is not kept, another owner
+    built the same way does not move, reads through the owner give the stored values"""
+    how = OLD_HOW.get(how, how)
+    before = osnap(t)
+    if bystander is not None and not isinstance(bystander, tuple):
+        bystander = (bystander, osnap(bystander))
     vec = getattr(t, role)
-    log.append(["assign", role, how, name, val])
+    log.append(["assign", role, how, name, val, rep])
+    given = None          # what a whole-vector route was given
+    scribble = None
+    exc = ""
     try:
-        if how == "attr":
-            setattr(t, name, val)
-        elif how == "key":
-            t[name] = val
-        elif how == "vec-key":
-            vec[name] = val
-        elif how == "all":
-            cur = [float(z) for z in vec.values]
-            cur[list(vec.names).index(name)] = val
-            vec.values = cur
-        else:
+        if how == "t-attr":
+            setattr(t, name, conv_scalar(val, rep))
+        elif how == "t-key":
+            t[name] = conv_scalar(val, rep)
+        elif how == "v-attr":
+            setattr(vec, name, conv_scalar(val, rep))
+        elif how == "v-key":
+            vec[name] = conv_scalar(val, rep)
+        elif how == "v-all":
+            if isinstance(val, (list, tuple)):
+                given = [float(z) for z in val]
+            else:               # one component replaced in the current values
+                given = list(before[role]["values"])
+                given[before[role]["names"].index(name)] = float(val)
+            obj, scribble = conv_vector(given, rep)
+            vec.values = obj
+        elif how == "t-reset":
             t.reset()
-    except ValueError:
-        pass
-    now = tsnap(t)
-    ctx.count()
-    for rl in ("params", "constants"):
-        for fld in ("mins", "maxs"):
-            if not same_list(before[rl][fld], now[rl][fld]):
-                fail(f"C12/transform-assign/{rl}-bounds-changed",
-                     {"transform": cname, "log": [list(e) for e in log], "before": before, "after": now},
-                     f"{cname}: an assignment changed {rl}.{fld}")
+        elif how == "v-reset":
+            vec.reset()
+        else:
+            raise RuntimeError(f"unknown route {how}")
+    except RuntimeError:
+        raise
+    except Exception as e:
+        exc = f"{type(e).__name__}: {e}"
+    after = osnap(t)
+    if how in OWNER_METH:
+        fn = f"{owner_defining(t, OWNER_METH[how])}.{OWNER_METH[how]}"
+    else:
+        fn = OWNER_FN[how]
+    rp = None             # the replay is built when a clause fails (the log of a long history is long)
+    raw_fail = fail
+    made = []
+
+    def fail(key, _r, what):
+        if not made:
+            made.append({"transform": cname, "spec": spec, "log": [list(e) for e in log], "before": before,
+                         "after": after, "outcome": exc or "accepted"})
+        raw_fail(key, made[0], what)
+
+    ctx.count(("owner", cname, role, how, "raised" if exc else "accepted"))
+
+    def rfail(rl):
+        return lambda key, r, what: fail(role_key(key, rl), r, what)
+
+    # --- every vector of the owner: invariants and frame
+    for rl in ROLES:
+        H = Hist(None, None, rfail(rl))
+        if state_valid(before[rl]):     # (a breach is blamed on the step that brought it about)
+            H.invariants(fn, after[rl], rp)
+        H.frame(fn, before[rl], after[rl], rp)
+    other = [rl for rl in ROLES if rl != role][0]
+    b, a = before[role], after[role]
+    n = len(b["names"])
+    if exc:
+        d = odiff(before, after)
+        if d:
+            fail(f"C12/{fn}/{role}-rejected-but-state-changed", rp, f"{how} raised ({exc}) but {d} changed")
+        if how in ("t-reset", "v-reset"):
+            fail(f"C12/{fn}/{role}-raises", rp, f"{how} raised on a valid vector: {exc}")
+    else:
+        # the vector that was not addressed keeps its state (t.reset(): whether the constants are reset
+        # as well is not the property's business - they only have to stay valid)
+        if how != "t-reset" and diff_fields(before[other], after[other]):
+            fail(f"C12/{fn}/{other}-other-vector-changed", rp,
+                 f"{how} on {role} changed {diff_fields(before[other], after[other])} of {other}")
+        want = None
+        if how in SCALAR_ROUTES and name in b["names"]:
+            i = b["names"].index(name)
+            w, clipped = expected_store(float(val), b["mins"][i], b["maxs"][i])
+            want = b["values"][:i] + [w] + b["values"][i + 1:]
+        elif how in SCALAR_ROUTES:
+            # a name the vector does not have (accepted as an ordinary attribute of the owner)
+            want, clipped = list(b["values"]), b["hit"]
+        elif how == "v-all" and len(given) == n:
+            ws = [expected_store(x, lo, hi) for x, lo, hi in zip(given, b["mins"], b["maxs"])]
+            want, clipped = [w[0] for w in ws], any(w[1] for w in ws)
+        elif how == "v-reset" or (how == "t-reset" and role == "params"):
+            ws = [expected_store(x, lo, hi) for x, lo, hi in zip(b["defaults"], b["mins"], b["maxs"])]
+            want, clipped = [w[0] for w in ws], any(w[1] for w in ws)
+        if want is not None and len(a["values"]) == n:
+            if not same_list(a["values"], want):
+                fail(f"C12/{fn}/{role}-stored-value-wrong", rp,
+                     f"{how}({name}, {val!r}) stored {a['values']}, expected {want}")
+            elif b["chb"] and a["hit"] != clipped:
+                fail(f"C12/{fn}/{role}-hitbounds-wrong", rp,
+                     f"{how}({name}, {val!r}): hitbounds={a['hit']} but clipped={clipped}")
+        if not b["chb"] and a["hit"]:
+            fail(f"C12/{fn}/{role}-hitbounds-set-without-check", rp,
+                 "hitbounds became True although check_hitbounds is False")
+        if scribble is not None:
+            scribble[...] = 12345.0
+            if odiff(after, osnap(t)):
+                fail(f"C12/{fn}/{role}-aliases-argument", rp,
+                     "editing the array given to the values setter afterwards changes the vector")
+    # --- reads through the owner give what the vectors hold
+    now = after if (exc or scribble is None) else osnap(t)
+    for rl in ROLES:
+        for i, nm in enumerate(now[rl]["names"]):
+            try:
+                got = [("attribute", float(getattr(t, nm))), ("key", float(t[nm]))]
+            except Exception as e:
+                got = []
+                fail(f"C12/{fn}/{rl}-read-raises", rp, f"reading '{nm}' through the owner raised {type(e).__name__}: {e}")
+            for hw, x in got:
+                if not same_num(x, now[rl]["values"][i]):
+                    fail(f"C12/{fn}/{rl}-read-differs", rp,
+                         f"'{nm}' read through the owner by {hw} is {x!r}, {rl}.values[{i}] is "
+                         f"{now[rl]['values'][i]!r}")
+    # --- another owner built the same way is a different object with its own vectors
+    if bystander is not None:
+        d = odiff(bystander[1], osnap(bystander[0]))
+        if d:
+            fail(f"C12/{fn}/{role}-bystander-changed", rp,
+                 f"{how} on one {cname} changed {d} of another {cname} object")
+    return exc
+
+
+def owner_construct(ctx, fail, tr, spec):
+    """constructor keywords / get_transform keywords: the vectors of what comes out obey the clauses,
+    and a keyword naming a parameter / constant left the plain clip of its value (bounds read back)"""
+    cname = spec["transform"]
+    rp = {"transform": cname, "spec": spec, "log": []}
+    try:
+        with np.errstate(all="ignore"):
+            t = make_owner(tr, spec)
+    except Exception as e:      # a refused construction leaves nothing behind
+        ctx.count(("owner-ctor", cname, spec.get("via"), "raised"))
+        return None
+    st = osnap(t)
+    rp["after"] = st
+    fn = "get_transform" if spec.get("via") != "class" else f"{cname}.__init__"
+    owner_judge_state(fail, fn, st, rp)
+    vals = spec.get("values") or {}
+    for role in ROLES:
+        s = st[role]
+        for nm, x in vals.items():
+            if nm in s["names"] and len(s["values"]) == len(s["names"]):
+                i = s["names"].index(nm)
+                w, _clip = expected_store(float(x), s["mins"][i], s["maxs"][i])
+                if not same_num(s["values"][i], w):
+                    fail(f"C12/{fn}/{role}-stored-value-wrong", rp,
+                         f"get_transform({cname!r}, {nm}={x!r}) holds {s['values'][i]!r}, expected {w!r} "
+                         f"for bounds [{s['mins'][i]!r}, {s['maxs'][i]!r}]")
+        if s["hit"] and not s["chb"]:
+            fail(f"C12/{fn}/{role}-hitbounds-set-without-check", rp,
+                 "hitbounds is True although check_hitbounds is False")
+    ctx.count(("owner-ctor", cname, spec.get("via"), "built", bool(vals)))
+    return t
 
 
 def transform_replay(ctx, fail, rp):
     """re-execute the log of a transform replay file"""
     from hydrodiy.stat import transform as tr
-    t = tr.get_transform(rp["transform"])
+    spec = rp.get("spec") or {"transform": rp["transform"]}
+    if not rp["log"]:
+        owner_construct(ctx, fail, tr, spec)
+        return
+    t = make_owner(tr, spec)
+    bys = make_owner(tr, spec)
     log = []
     for e in rp["log"]:
         if e[0] == "call":
-            t_call(ctx, fail, t, rp["transform"], e[1], e[2], log, 0)
+            t_call(ctx, fail, t, rp["transform"], e[1], e[2], log, 0, spec=spec)
         else:
-            t_assign(ctx, fail, t, rp["transform"], e[1], e[2], e[3], e[4], log)
+            t_assign(ctx, fail, t, rp["transform"], e[1], e[2], e[3], e[4], log,
+                     rep=e[5] if len(e) > 5 else None, spec=spec, bystander=bys)
+
+
+def class_kwargs(tr, cname):
+    """the constructor keywords of a transform class that set bounds"""
+    import inspect
+    return [k for k in inspect.signature(getattr(tr, cname)).parameters if k in ("mininu", "minilam")]
+
+
+def owner_specs(ctx, tr, rng):
+    """the owners: every class of transform.__all__ with its default constructor, with constructor
+    keywords, and the base class holding generated vectors"""
+    specs = []
+    for cname in tr.__all__:
+        specs.append({"transform": cname})
+        kws = class_kwargs(tr, cname)
+        if kws:
+            for mininu, minilam in ctx.scale([(0.1, -1.0), (0.0, 0.5)],
+                                             [(0.1, -1.0), (0.0, 0.5), (2.5, 1.0), (-1.0, -3.0), (1e-3, 0.0)]):
+                kw = {k: {"mininu": mininu, "minilam": minilam}[k] for k in kws}
+                specs.append({"transform": cname, "kwargs": kw})
+    gen = [(1, 1, (True, True), False, (True, True), True, ["finite"], ["lower"]),
+           (2, 0, (True, True), True, (True, False), False, ["finite", "lower"], []),
+           (2, 2, (True, False), False, (True, True), False, ["free", "finite"], ["upper", "point"]),
+           (0, 1, (True, False), False, (False, False), True, [], ["finite"])]
+    if ctx.thorough:
+        gen += [(3, 1, (True, True), False, (False, False), False, None, None),
+                (1, 3, (False, False), True, (True, True), True, None, None),
+                (4, 4, (True, True), True, (True, True), False, None, None),
+                (2, 1, (True, True), False, (True, True), False, ["point", "upper"], ["free"])]
+    for g in gen:
+        specs.append(generic_spec(rng, *g))
+    return specs
+
+
+def owner_sweep(ctx, fail):
+    """exhaustive, one assignment: every owner x every vector x every name x every value class x every
+    route, on a fresh owner and (all of them, shuffled) as one history on a re-used owner; wrong
+    lengths, unknown names, resets; constructor / get_transform keywords"""
+    from hydrodiy.stat import transform as tr
+    rng = ctx.rng
+    for spec in owner_specs(ctx, tr, rng):
+        cname = spec["transform"]
+        cm.mark({"transform": cname, "spec": spec, "phase": "owner-sweep"})
+        try:
+            t0 = make_owner(tr, spec)
+        except Exception:
+            continue      # (a class that cannot be built is reported with the transform tables)
+        owner_judge_state(fail, f"{cname}.__init__", osnap(t0), {"transform": cname, "spec": spec, "log": []})
+        st = osnap(t0)
+        steps = []
+        k = 0
+        for role in ROLES:
+            s = st[role]
+            n = len(s["names"])
+            for i, nm in enumerate(s["names"]):
+                for c, x in sorted(owner_values(s["mins"][i], s["maxs"][i]).items()):
+                    reps = scalar_reps(x)
+                    for how in SCALAR_ROUTES:
+                        for rep in (reps if ctx.thorough else [reps[k % len(reps)]]):
+                            steps.append((role, how, nm, x, rep))
+                        k += 1
+                    for rep in (VEC_REPS if ctx.thorough else [VEC_REPS[k % len(VEC_REPS)]]):
+                        steps.append((role, "v-all", nm, x, rep))
+                    k += 1
+            if n:
+                for m in sorted({n - 1, n + 1, 0} - {n}):
+                    steps.append((role, "v-all", None, [0.25] * m, VEC_REPS[k % len(VEC_REPS)]))
+                    k += 1
+                steps.append((role, "v-reset", None, None, None))
+            for how in ("t-attr", "t-key", "v-attr", "v-key"):
+                steps.append((role, how, FOREIGN[0], 1.0, "float"))
+        steps.append(("params", "t-reset", None, None, None))
+        # fresh owner for every step (quick tier: not for the constructor-keyword variants of a class)
+        bys = make_owner(tr, spec)
+        bys = (bys, osnap(bys))
+        for role, how, nm, x, rep in (steps if ctx.thorough or not spec.get("kwargs") else []):
+            t_assign(ctx, fail, make_owner(tr, spec), cname, role, how, nm, x, [], rep=rep, spec=spec, bystander=bys)
+        # the same steps, shuffled, as one history on one owner (thorough: twice, the second pass
+        # starting from whatever the first left behind)
+        t = make_owner(tr, spec)
+        log = []
+        for _ in range(ctx.scale(1, 2)):
+            order = list(steps)
+            rng.shuffle(order)
+            for role, how, nm, x, rep in order:
+                t_assign(ctx, fail, t, cname, role, how, nm, x, log, rep=rep, spec=spec, bystander=bys)
+    # ---- constructor keywords / get_transform keywords
+    mininus = ctx.scale([1e-10, 0.1, -1.0], [1e-10, 0.0, 0.1, 1e-3, 2.5, -1.0, 1e6])
+    minilams = ctx.scale([0.0, -1.0, 1.0], [0.0, -1.0, 0.5, 1.0, 2.0, -3.0, 3.0, 3.5, -4.0])
+    for cname in tr.__all__:
+        kws = class_kwargs(tr, cname)
+        combos = [{}]
+        if kws:
+            combos += [{k: {"mininu": a, "minilam": b}[k] for k in kws} for a in mininus for b in minilams]
+            combos = [dict(t) for t in sorted({tuple(sorted(c.items())) for c in combos})]
+        quick_kw = [{k: v for k, v in q.items() if k in kws}
+                    for q in ({"mininu": 0.1, "minilam": -1.0}, {"mininu": -1.0, "minilam": 1.0})]
+        for kw in combos:
+            for via in ("class", "get_transform"):
+                t = owner_construct(ctx, fail, tr, {"transform": cname, "kwargs": kw, "via": via})
+            if t is None:
+                continue
+            if not ctx.thorough and kw and kw not in quick_kw:
+                continue      # (quick tier: the keyword values are swept for three keyword settings only)
+            st = osnap(t)
+            named = [(role, nm, st[role]["mins"][i], st[role]["maxs"][i])
+                     for role in ROLES for i, nm in enumerate(st[role]["names"])]
+            for role, nm, lo, hi in named:
+                for c, x in sorted(owner_values(lo, hi).items()):
+                    vals = {nm: x}
+                    if len(named) > 1 and rng.random() < 0.5:
+                        _r, nm2, lo2, hi2 = rng.choice([q for q in named if q[1] != nm])
+                        ov = owner_values(lo2, hi2)
+                        vals[nm2] = ov[rng.choice(sorted(ov))]
+                    owner_construct(ctx, fail, tr, {"transform": cname, "kwargs": kw, "values": vals,
+                                                    "via": "get_transform"})
 
 
 def transform_search(ctx, fail):
@@ -746,14 +1166,20 @@ def transform_search(ctx, fail):
     rng = ctx.rng
     nseq = ctx.scale(12, 120)
     depth = ctx.scale(30, 60)
-    for cname in tr.__all__:
-        for it in range(nseq):
+    specs = [{"transform": cname} for cname in tr.__all__]
+    specs += [s for s in owner_specs(ctx, tr, rng) if s["transform"] == "Transform" or s.get("kwargs")]
+    for spec in specs:
+        cname = spec["transform"]
+        plain = "kwargs" not in spec and cname != "Transform"
+        for it in range(nseq if plain else max(2, nseq // 8)):
             try:
-                t = tr.get_transform(cname)
+                t = make_owner(tr, spec)
+                bys = make_owner(tr, spec)
+                bys = (bys, osnap(bys))
             except Exception:
                 break      # reported with the transform tables (C12/<class>.__init__/raises)
             log = []
-            cm.mark({"transform": cname, "sequence": it})
+            cm.mark({"transform": cname, "spec": spec, "sequence": it})
             for step in range(depth):
                 r = rng.random()
                 pn, cn = list(t.params.names), list(t.constants.names)
@@ -768,7 +1194,7 @@ def transform_search(ctx, fail):
                     if cname == "Softmax":
                         x = [[abs(u) / (4 * len(x)) if not math.isnan(u) else u for u in x]]
                     t_call(ctx, fail, t, cname, call, ns if call == "params_sample" else x, log,
-                           rng.randrange(2 ** 31))
+                           rng.randrange(2 ** 31), spec=spec)
                 else:
                     # an assignment (through the transform or through its vectors)
                     role = "constants" if (cn and (not pn or rng.random() < 0.35)) else "params"
@@ -778,11 +1204,31 @@ def transform_search(ctx, fail):
                         continue
                     i = rng.randrange(len(nms))
                     lo, hi = float(vec.mins[i]), float(vec.maxs[i])
-                    val = rand_value(rng, lo, hi)
+                    if rng.random() < 0.5:
+                        val = rand_value(rng, lo, hi)
+                    else:
+                        ov = owner_values(lo, hi)
+                        val = ov[rng.choice(sorted(ov))]
                     if math.isnan(val) and not vec.accept_nan and rng.random() < 0.7:
                         val = lo if math.isfinite(lo) else 0.5
-                    how = rng.choice(["attr", "key", "vec-key", "all", "reset"])
-                    t_assign(ctx, fail, t, cname, role, how, nms[i], val, log)
+                    how = rng.choice(["t-attr", "t-key", "t-key", "v-attr", "v-key", "v-all", "v-all",
+                                      "t-reset", "v-reset"])
+                    name, rep = nms[i], None
+                    if how in SCALAR_ROUTES:
+                        rep = rng.choice(scalar_reps(val))
+                        if rng.random() < 0.05:
+                            name, val, rep = rng.choice(FOREIGN), 1.0, "float"
+                    elif how == "v-all":
+                        rep = rng.choice(VEC_REPS)
+                        q = rng.random()
+                        if q < 0.4:
+                            val = [rand_value(rng, float(a), float(b)) for a, b in zip(vec.mins, vec.maxs)]
+                        elif q < 0.5:
+                            val = [0.25] * rng.choice([k for k in (len(nms) - 1, len(nms) + 1, 0)
+                                                       if k != len(nms)])
+                    else:
+                        name, val = None, None
+                    t_assign(ctx, fail, t, cname, role, how, name, val, log, rep=rep, spec=spec, bystander=bys)
 
 
 # ----------------------------------------------------------------------------
@@ -797,8 +1243,14 @@ def run(ctx):
                 "export / a copy ending with an export and a clone of the final state, on vectors of 0, 1, 2 names, bound "
                 "kinds finite/half-infinite/infinite/point, the three admissible flag combinations x accept_nan; "
                 "random histories of up to 40 operations on vectors of 0..4 names (values on a bound or at least "
-                "1e-6 away, +-inf, NaN); rejected constructor calls; 26 transform tables; non-trivial = distinct "
-                "(generator, nval, check_hitbounds, accept_nan, length class) signature or (class, call, raised)")
+                "1e-6 away, +-inf, NaN); rejected constructor calls; 26 transform tables; vectors reached through "
+                "their owner: 13 transform classes (default and keyword constructors) and Transform(name, params, "
+                "constants) over generated vectors x {attribute, item on the transform; attribute, item, values= "
+                "on params / constants; reset; unknown name; wrong length; get_transform keywords} x {inside, on, "
+                "1e-6 / 0.5 / 1 / 1e6 outside, +-1e300, +-inf, +-0, NaN} x {float, int, float64, float32; list, "
+                "tuple, array, strided view}, each on a fresh owner and in a shuffled history on one owner; "
+                "non-trivial = distinct (generator, nval, check_hitbounds, accept_nan, length class) signature or "
+                "(class, call, raised) or (owner, class, vector, route, outcome)")
     ctx.trusted = cm.STD_TRUST + [
         "harness/extractors/c12.py (AST evaluator of the Vector(...) calls in transform.py)",
         "aliasing between a vector and arrays held by a caller is outside the value-semantics model: "
@@ -807,6 +1259,9 @@ def run(ctx):
         "independence of clones / round-tripped vectors (no shared arrays): tested on the implementation",
         "read-only uses of a transform leave params/constants/bounds unchanged: tested on every class of "
         "transform.__all__ (random interleavings with assignments), not modelled",
+        "assignments that reach a vector through its owner (transform attribute / item, constructor and "
+        "get_transform keywords): the model is of Vector alone; the routes of the owner are tested with the "
+        "independent oracle on every transform class, not modelled",
         "binary64: the theorems are over the extended reals; the binary64 run of the same model text is "
         "compared with the implementation on every generated history"]
     import time
@@ -944,6 +1399,9 @@ def run(ctx):
         rp = ctx.replay.get("replay", ctx.replay)
         if isinstance(rp, dict) and "transform" in rp:
             transform_replay(ctx, fail, rp)
+    owner_sweep(ctx, fail)
+    tphase["owner_sweep"] = round(time.time() - t0, 1)
+    t0 = time.time()
     transform_search(ctx, fail)
     tphase["transforms"] = round(time.time() - t0, 1)
     ctx.notes["phase_seconds"] = tphase
